@@ -69,10 +69,14 @@ def call_shape(shape, xs, gs):
 
 def process_double(ck, case):
     desc = doubles.model_from_desc(case["model"])
-    model = desc.build()
-    cond = model.distributions[1]
-    x, g = call_shape(case["shape"], case["x"], case["g"])
     ck.case(case, nontrivial=desc.n_dependent() >= 1)
+    try:
+        cond = desc.build().distributions[1]
+    except Exception as e:  # noqa: BLE001
+        ck.fail({"entry": "ConditionalDistribution", "predicate": "constructs", "template": "RatDist"}, case,
+                f"{type(e).__name__}: {e}")
+        return
+    x, g = call_shape(case["shape"], case["x"], case["g"])
     ck.count("part=A")
     ck.count("A_shape=" + case["shape"])
     ck.count("A_method=" + case["method"])
@@ -136,16 +140,28 @@ def process_double_sampling(ck, rng):
 
 def run_double_sampling(ck, case):
     m = doubles.model_from_desc(case["model"])
-    cond = m.build().distributions[1]
+    try:
+        cond = m.build().distributions[1]
+    except Exception as e:  # noqa: BLE001
+        ck.case(case, nontrivial=m.n_dependent() >= 1, sample=False)
+        ck.fail({"entry": "ConditionalDistribution", "predicate": "constructs", "template": "RatDist"}, case,
+                f"{type(e).__name__}: {e}")
+        return
     gs = np.array(case["g"], dtype=float)
     k, seed = len(gs), case["seed"]
     int_given = case["given_dtype"].startswith("int")
-    if case["given_dtype"].endswith("-scalar"):
-        got = np.asarray(cond.draw_sample(k, int(gs[0]) if int_given else float(gs[0]), random_state=seed), dtype=float).ravel()
-        u = np.random.default_rng(seed).uniform(size=k).ravel()
-    else:
-        got = np.asarray(cond.draw_sample(1, gs.astype(np.int64) if int_given else gs, random_state=seed), dtype=float).ravel()
-        u = np.random.default_rng(seed).uniform(size=(1, k)).ravel()
+    try:
+        if case["given_dtype"].endswith("-scalar"):
+            got = np.asarray(cond.draw_sample(k, int(gs[0]) if int_given else float(gs[0]), random_state=seed), dtype=float).ravel()
+            u = np.random.default_rng(seed).uniform(size=k).ravel()
+        else:
+            got = np.asarray(cond.draw_sample(1, gs.astype(np.int64) if int_given else gs, random_state=seed), dtype=float).ravel()
+            u = np.random.default_rng(seed).uniform(size=(1, k)).ravel()
+    except Exception as e:  # noqa: BLE001
+        ck.case(case, nontrivial=m.n_dependent() >= 1, sample=False)
+        ck.fail({"entry": "ConditionalDistribution.draw_sample", "predicate": "evaluates", "template": "RatDist"}, case,
+                f"{type(e).__name__}: {e}")
+        return
     ck.count("A_draw_sample_given=" + case["given_dtype"])
     ck.case(case, nontrivial=m.n_dependent() >= 1, sample=False)
     ck.count("A_draw_sample")
@@ -402,12 +418,26 @@ def process_family(ck, case, fams):
     dep_names = sorted(p for p, sp in case["spec"].items() if sp[0] != "fixed")
     ck.fail({"entry": "ConditionalDistribution." + case["method"], "predicate": "equals_template_at_dependence_values",
              "family": case["family"], "dependent": dep_names}, case,
-            f"pair {j} (x={xs[j]!r}, g={case['g'][j]!r}): conditional {got[j]!r} constructed template {ref[j]!r}")
+            f"pair {j} (x={xs[j]!r}, g={case['g'][j]!r}, points: {points}): conditional {float(got[j])!r} constructed "
+            f"template {float(ref[j])!r}")
 
 
 # --------------------------------------------------------------------------- (D)
 
 D_SHAPES = ["vector", "intvector", "vec1", "scalar", "intscalar"]
+_CONDSHAPE = {}
+_PENDING = []  # (driver line, callback(answer tokens)): model questions of parts (E)/(F), asked in one batch
+
+
+def flush(ck):
+    """one driver round trip for all deferred model questions"""
+    if not _PENDING:
+        return
+    todo = list(_PENDING)
+    del _PENDING[:]
+    answers = ck.driver.run([line for line, _ in todo])
+    for (_, fn), ans in zip(todo, answers):
+        fn(ans.split())
 
 
 def gen_family_sampling_cases(rng, reps):
@@ -470,11 +500,13 @@ def compare_sample(ck, case, got, ref, n, k_or_none, raw_shapes, entry_sig):
         failed = True
         j = np.unravel_index(int(np.argmax(np.abs(got - ref))), got.shape)
         ck.fail(dict(entry_sig, predicate="sample_equals_template_sample_same_seed"), case,
-                f"seed {case['seed']}: conditional sample{list(j)} = {got[j]!r}, template constructed at the "
-                f"dependence values (given {case['g'][:3]}) gives {ref[j]!r}")
+                f"seed {case['seed']}: conditional sample{[int(v) for v in j]} = {float(got[j])!r}, template "
+                f"constructed at the dependence values (given {case['g'][:3]}) gives {float(ref[j])!r}")
     # model: size handed to the template's sampler
-    line = ["RUN", "condshape", str(n), "-" if k_or_none is None else str(k_or_none)] + raw_shapes
-    ans = ck.driver.run([" ".join(line)])[0].split()
+    line = " ".join(["RUN", "condshape", str(n), "-" if k_or_none is None else str(k_or_none)] + raw_shapes)
+    if line not in _CONDSHAPE:  # a pure function of a few small numbers: ask the model once per distinct line
+        _CONDSHAPE[line] = ck.driver.run([line])[0].split()
+    ans = _CONDSHAPE[line]
     want = ["OK", "flat", str(n)] if got.ndim == 1 else ["OK", "matrix"] + [str(v) for v in got.shape]
     if not failed and ans != want:
         ck.diverge("conditional-sample-size", case, f"impl sample shape {got.shape}, model {' '.join(ans)}")
@@ -573,20 +605,24 @@ def eval_rat(ck, case, cond, s_dep, l_dep, sig):
         bad = True
         j = int(np.argmax(got != ref))
         ck.fail(dict(sig, entry="ConditionalDistribution." + meth, predicate="equals_template_at_dependence_values"),
-                case, f"pair {j} (x={case['x'][j]!r}, g={case['g'][j]!r}): conditional {got[j]!r} template {ref[j]!r}")
+                case, f"pair {j} (x={case['x'][j]!r}, g={case['g'][j]!r}): conditional {float(got[j])!r} "
+                      f"template {float(ref[j])!r}")
     line = ["RUN", "cond"] + _rat_tokens(s_dep, l_dep) + ["1", meth, str(k)]
     for xv, gv in zip(case["x"], case["g"]):
         line += [str(f2b(xv)), str(f2b(gv))]
-    ans = ck.driver.run([" ".join(line)])[0].split()
     if bad:
         return
-    if ans[0] != "OK":
-        ck.diverge("conditional-eval", case, " ".join(ans))
-        return
-    mv = np.array([b2f(v) for v in ans[2:]])
-    if not np.array_equal(mv.view(np.uint64), got.view(np.uint64)):
-        j = int(np.argmax(mv != got))
-        ck.diverge("conditional-eval", case, f"pair {j}: impl {got[j]!r} model {mv[j]!r}")
+
+    def compare(ans):
+        if ans[0] != "OK":
+            ck.diverge("conditional-eval", case, " ".join(ans))
+            return
+        mv = np.array([b2f(v) for v in ans[2:]])
+        if not np.array_equal(mv.view(np.uint64), got.view(np.uint64)):
+            j = int(np.argmax(mv != got))
+            ck.diverge("conditional-eval", case, f"pair {j}: impl {float(got[j])!r} model {float(mv[j])!r}")
+
+    _PENDING.append((" ".join(line), compare))
 
 
 def sample_rat(ck, case, cond, s_dep, l_dep, sig):
@@ -602,7 +638,8 @@ def sample_rat(ck, case, cond, s_dep, l_dep, sig):
     raw_shapes = [("s" if scalar or d.kind == "fixed" else f"v{len(sd['g'])}") for d in (s_dep, l_dep)]
     ref = doubles.RatDist(**vals).draw_sample(sd["n"], random_state=_rs(c2))
     try:
-        got = cond.draw_sample(sd["n"], given, random_state=_rs(c2))
+        with np.errstate(all="ignore"):
+            got = cond.draw_sample(sd["n"], given, random_state=_rs(c2))
     except Exception as e:  # noqa: BLE001
         ck.fail(dict(sig, entry="ConditionalDistribution.draw_sample", predicate="evaluates"), case,
                 f"{type(e).__name__}: {e}")
@@ -689,12 +726,11 @@ def process_defaults(ck, case):
     line = ["RUN", "defaults"]
     for nme, d in zip(names, case["defaults"]):
         line += [nme, "-" if d is None else str(f2b(d))]
-    ans = ck.driver.run([" ".join(line)])[0].split()
     try:
         impl = ["OK"] + [t for nme, v in df.parameters.items() for t in (nme, str(f2b(float(v))))]
     except Exception as e:  # noqa: BLE001
         impl = [f"{type(e).__name__}: {e}"]
-    params_diverge = ans != impl
+    defaults_line = " ".join(line)
 
     def value_of(dep, g):
         return np.array([dep.value(v) for v in np.atleast_1d(g)])
@@ -704,7 +740,8 @@ def process_defaults(ck, case):
     failed = False
     for garg in (g0, gv):
         try:
-            got = np.atleast_1d(np.asarray(df(garg), dtype=float))
+            with np.errstate(all="ignore"):
+                got = np.atleast_1d(np.asarray(df(garg), dtype=float))
         except Exception as e:  # noqa: BLE001
             got = None
             detail = f"{type(e).__name__}: {e}"
@@ -715,8 +752,9 @@ def process_defaults(ck, case):
                     f"defaults {dict(zip(names, case['defaults']))} (None: no default -> 1): dep({garg!r}) = "
                     f"{detail if got is None else got[:3].tolist()}, the callable with these values gives {want[:3].tolist()}")
             break
-    if params_diverge and not failed:
-        ck.diverge("signature-defaults", case, f"impl parameters {impl} model {ans}")
+    if not failed:
+        _PENDING.append((defaults_line, lambda ans: ans == impl or ck.diverge(
+            "signature-defaults", case, f"impl parameters {impl} model {ans}")))
     # (2) inside a conditional distribution
     eval_rat(ck, case, cond, s_dep, l_dep, {"input": "signature-defaults"})
     if "sampling" in case:
@@ -736,7 +774,8 @@ def process_defaults(ck, case):
     for label, a, kw in calls:
         for garg in (g0, gv):
             try:
-                got = np.atleast_1d(np.asarray(df(garg, *a, **kw), dtype=float))
+                with np.errstate(all="ignore"):
+                    got = np.atleast_1d(np.asarray(df(garg, *a, **kw), dtype=float))
                 w_e, w_s = value_of(e_dep, garg), value_of(s_dep, garg)
                 if got.shape == w_e.shape and np.array_equal(got.view(np.uint64), w_e.view(np.uint64)):
                     outcome = "explicit"
@@ -766,7 +805,8 @@ def process_defaults(ck, case):
             break
     # the explicit calls must not have touched the stored parameters
     try:
-        got = np.atleast_1d(np.asarray(df(gv), dtype=float))
+        with np.errstate(all="ignore"):
+            got = np.atleast_1d(np.asarray(df(gv), dtype=float))
         ok = np.array_equal(got.view(np.uint64), value_of(s_dep, gv).view(np.uint64))
     except Exception:  # noqa: BLE001
         ok = False
@@ -894,10 +934,15 @@ def main(ck):
         process_family(ck, case, fams)
     for case in gen_family_sampling_cases(rng, 20 if thorough else 3):
         process_family_sampling(ck, case, fams)
-    for case in gen_default_cases(rng, 1500 if thorough else 150):
+    for i, case in enumerate(gen_default_cases(rng, 1500 if thorough else 150)):
         process_defaults(ck, case)
-    for case in gen_shared_cases(rng, 1500 if thorough else 150):
+        if i % 200 == 199:
+            flush(ck)
+    for i, case in enumerate(gen_shared_cases(rng, 1500 if thorough else 150)):
         process_shared(ck, case)
+        if i % 200 == 199:
+            flush(ck)
+    flush(ck)
     process_binding(ck)
 
 
@@ -915,6 +960,7 @@ def replay(ck, payload):
         process_double(ck, case)
     elif case.get("kind") == "draw_sample":
         run_double_sampling(ck, case)
+    flush(ck)
     for s, c, d in ck.failures:
         print("oracle:", s, d)
     for op, c, d in ck.divergences:
